@@ -1,29 +1,35 @@
 //! `wv`: implementation side of the correspondence check.  Reads one case per line,
 //! runs the real wellen code (built from /repo's working tree with `--cfg wellen_verif`)
 //! and prints one canonical observation per line, in the same grammar as the model runner.
-use std::io::{BufRead, Write};
+use std::io::BufRead;
 use std::panic::{catch_unwind, AssertUnwindSafe};
 
 mod util;
+mod obs;
 mod offsets;
+mod enc;
+mod vcd;
 
 fn dispatch(cmd: &str, args: &[&str]) -> String {
     match cmd {
         "offsets" => offsets::run(args),
+        "enc" => enc::run(args),
+        "body" => vcd::run_body(args),
+        "vcd" => vcd::run_vcd(args),
         _ => "UNSUPPORTED".to_string(),
     }
 }
 
 fn main() {
     // panics are an observation (PANIC), not noise on stderr
-    std::panic::set_hook(Box::new(|_| {}));
+    if std::env::var("WV_VERBOSE").is_err() {
+        std::panic::set_hook(Box::new(|_| {}));
+    }
     let path = std::env::args().nth(1);
     let input: Box<dyn BufRead> = match path {
         Some(p) => Box::new(std::io::BufReader::new(std::fs::File::open(p).unwrap())),
         None => Box::new(std::io::BufReader::new(std::io::stdin())),
     };
-    let stdout = std::io::stdout();
-    let mut out = std::io::BufWriter::new(stdout.lock());
     for (ii, line) in input.lines().enumerate() {
         let line = line.unwrap();
         if line.is_empty() || line.starts_with('#') {
@@ -34,6 +40,7 @@ fn main() {
         let args: Vec<&str> = parts.collect();
         let res = catch_unwind(AssertUnwindSafe(|| dispatch(cmd, &args)))
             .unwrap_or_else(|_| "PANIC".to_string());
-        writeln!(out, "{} {}", ii + 1, res).unwrap();
+        // wellen itself prints warnings to stdout from worker threads: never hold the lock
+        println!("{} {}", ii + 1, res);
     }
 }
